@@ -26,11 +26,14 @@ pub struct Config {
     pub initial_work: Vec<WorkItem>,
     /// keep up to this many path witnesses (inputs + observed outputs) in the report
     pub n_witnesses: usize,
+    /// after an exhaustive exploration ask the solver whether any input of the domain lies on no explored
+    /// path (independent check of the explorer itself); only for harnesses without sqrt / uninterpreted terms
+    pub closure: bool,
 }
 
 impl Default for Config {
     fn default() -> Config {
-        Config { name: String::new(), max_paths: 200_000, max_secs: 120.0, query_timeout_ms: 5_000, solver: "z3".into(), max_violations: 1, n_samples: 3, first_inputs: vec![], verbose: false, frontier_target: 0, initial_work: vec![], n_witnesses: 0 }
+        Config { name: String::new(), max_paths: 200_000, max_secs: 120.0, query_timeout_ms: 5_000, solver: "z3".into(), max_violations: 1, n_samples: 3, first_inputs: vec![], verbose: false, frontier_target: 0, initial_work: vec![], n_witnesses: 0, closure: false }
     }
 }
 
@@ -101,6 +104,11 @@ pub struct Report {
     pub frontier: Vec<WorkItem>,
     pub shards: u64,
     pub witnesses: Vec<(Vec<i64>, Vec<u64>)>,
+    /// closure check: "proved" | "failed: <inputs>" | "unknown" | "skipped: <why>" | "" (not requested)
+    pub closure: String,
+    pub closure_time_s: f64,
+    pub path_conditions: Vec<String>,
+    pub closure_domain: Vec<(i64, i64)>,
 }
 
 pub struct RunOut {
@@ -308,6 +316,32 @@ pub fn explore(cfg: &Config, sym: &dyn Fn(), native: Option<&dyn Fn()>) -> Repor
             solver.send(&format!("(assert {})\n", if ev.outcome { name } else { format!("(not {})", name) }));
         }
 
+        if cfg.closure && rep.closure.is_empty() {
+            // every run covers the inputs satisfying its recorded decisions: complete paths entirely, runs
+            // rejected by an assumption up to and including the failed assumption (those inputs are outside the domain)
+            let dom: Vec<(i64, i64)> = a.vars.iter().map(|v| (v.lo, v.hi)).collect();
+            let consistent = rep.closure_domain.iter().zip(dom.iter()).all(|(x, y)| x == y);
+            if !consistent {
+                rep.closure = "skipped: the input variables differ between paths".into();
+                rep.path_conditions.clear();
+            } else {
+                if dom.len() > rep.closure_domain.len() {
+                    rep.closure_domain = dom;
+                }
+                if rep.path_conditions.len() >= 30_000 {
+                    rep.closure = "skipped: more than 30000 path conditions".into();
+                    rep.path_conditions.clear();
+                } else if is_new_path || assume_failed {
+                    match crate::solver::inline_path_condition(a, a.trace.len()) {
+                        Some(pc) => rep.path_conditions.push(pc),
+                        None => {
+                            rep.closure = "skipped: path conditions mention sqrt or uninterpreted terms".into();
+                            rep.path_conditions.clear();
+                        }
+                    }
+                }
+            }
+        }
         if complete && is_new_path {
             rep.paths += 1;
             match &out.abort {
@@ -473,6 +507,15 @@ pub fn explore(cfg: &Config, sym: &dyn Fn(), native: Option<&dyn Fn()>) -> Repor
     rep.solver_time_s = solver.time_s;
     rep.wall_s = t0.elapsed().as_secs_f64();
     rep.locations = locs.iter().map(|(f, l)| format!("{}:{}", f, l)).collect();
+    if cfg.closure && rep.closure.is_empty() && !frontier_reached && cfg.initial_work.is_empty() {
+        let done = !budget_hit && work.is_empty() && rep.undecided_flips == 0 && rep.unrealised_flips == 0 && rep.violations.is_empty();
+        if done {
+            run_closure(&mut rep, &cfg.solver);
+        } else {
+            rep.closure = "skipped: the exploration did not close".into();
+            rep.path_conditions.clear();
+        }
+    }
     rep.exhaustive = !budget_hit && (work.is_empty() || frontier_reached) && rep.undecided_flips == 0 && rep.unrealised_flips == 0 && rep.violations.is_empty() && rep.solver_errors.is_empty() && rep.unsupported_paths == 0;
     rep
 }
@@ -500,5 +543,45 @@ impl Report {
         self.locations = l.into_iter().collect();
         for sm in &o.samples { if self.samples.len() < 4 { self.samples.push(sm.clone()); } }
         for w in &o.witnesses { if self.witnesses.len() < 400 { self.witnesses.push(w.clone()); } }
+        if !o.closure.is_empty() && self.closure.is_empty() {
+            self.closure = o.closure.clone();
+            self.path_conditions.clear();
+        }
+        if self.closure.is_empty() {
+            self.path_conditions.extend(o.path_conditions.iter().cloned());
+            if o.closure_domain.len() > self.closure_domain.len() {
+                self.closure_domain = o.closure_domain.clone();
+            }
+        }
     }
+}
+
+/// domain /\ not(pc_1 \/ ... \/ pc_n) must be unsatisfiable: every input of the domain follows one of the
+/// explored paths.  Decided in a fresh solver process, independently of the incremental contexts used above.
+pub fn run_closure(rep: &mut Report, solver_bin: &str) {
+    let t0 = Instant::now();
+    let mut s = Solver::new(solver_bin, 120_000);
+    let mut txt = String::new();
+    for (i, (lo, hi)) in rep.closure_domain.iter().enumerate() {
+        txt.push_str(&format!("(declare-const x{} Int)\n(assert (and (<= {} x{}) (<= x{} {})))\n", i, crate::solver::ilit(*lo), i, i, crate::solver::ilit(*hi)));
+    }
+    s.send(&txt);
+    if std::env::var("SYMX_CLOSURE_SELFTEST").is_ok() {
+        // self-test of this check: forget one explored path; the answer must become "failed"
+        rep.path_conditions.pop();
+    }
+    for chunk in rep.path_conditions.chunks(200) {
+        let mut t = String::new();
+        for pc in chunk {
+            t.push_str(&format!("(assert (not {}))\n", pc));
+        }
+        s.send(&t);
+    }
+    rep.closure = match s.check(rep.closure_domain.len()) {
+        Answer::Unsat => "proved".into(),
+        Answer::Sat(m) => format!("failed: input {:?} lies on no explored path", m),
+        Answer::Unknown(r) => format!("unknown ({})", r),
+    };
+    rep.closure_time_s = t0.elapsed().as_secs_f64();
+    rep.path_conditions.clear();
 }
